@@ -157,7 +157,93 @@ def try_build(cls, kwargs):
         return False, e
 
 
+BAD_NUM_STD = [[1.4], [], [1.0, 2.0, 3.0], [0.0, 1.0], [-1.0, 2.0], [1.4, 0.0]]
+SETTINGS_OBJECT_INPUTS = ["legacy object -> current model", "billing object -> legacy model", "billing object -> billing model", "altered current object -> current model"]
+
+
+def case_num_std(case):
+    import io
+    import contextlib
+    cls = profiles()[case["profile"]]
+    with contextlib.redirect_stdout(io.StringIO()):
+        try:
+            ss = {"reduce_splits_by_gaussian": True, "reduce_splits_num_std": case["value"]}
+            if case["nested_as"] == "object":
+                ss = type(cls().split_selection)(**ss)
+            cls(developer_mode=True, silent_developer_mode=True, split_selection=ss)
+            accepted = True
+        except Exception:  # noqa
+            accepted = False
+    return {"ok": not accepted, "problems": [f"split_selection.reduce_splits_num_std = {case['value']!r} accepted by the {case['profile']} profile in developer mode"] if accepted else []}
+
+
+def case_settings_object(case):
+    import io
+    import contextlib
+    import opendsm.eemeter as em
+    from opendsm.eemeter.models.daily.utilities.settings import DailySettings, DailyLegacySettings
+    from opendsm.eemeter.models.billing.settings import BillingSettings
+    label = case["input"]
+    table = {"legacy object -> current model": (lambda: DailyLegacySettings(), lambda o: em.DailyModel(settings=o), lambda: em.DailyModel()),
+             "billing object -> legacy model": (lambda: BillingSettings(), lambda o: em.DailyModel(model="legacy", settings=o), lambda: em.DailyModel(model="legacy")),
+             "billing object -> billing model": (lambda: BillingSettings(), lambda o: em.BillingModel(settings=o), lambda: em.BillingModel()),
+             "altered current object -> current model": (lambda: DailySettings().model_copy(update={"alpha_selection": 1.0}), lambda o: em.DailyModel(settings=o),
+                                                         lambda: em.DailyModel())}
+    make, ctor, ref_ctor = table[label]
+
+    def constants(m):
+        return flatten(norm(m.settings.model_dump()))
+    with contextlib.redirect_stdout(io.StringIO()):
+        ref = ref_ctor()
+        try:
+            m = ctor(make())
+            outcome = "accepted"
+        except Exception as e:  # noqa
+            m, outcome = None, f"rejected ({type(e).__name__})"
+    ok = m is None or bool(getattr(m.settings, "developer_mode", False)) or constants(m) == constants(ref)
+    diff = [] if m is None else [k for k, v in constants(m).items() if constants(ref).get(k) != v][:4]
+    return {"ok": ok, "problems": [] if ok else [f"{label}: {outcome}; without developer_mode the model runs with non-approved constants {diff}"]}
+
+
+def case_stored_settings(case):
+    """the settings recorded in a FITTED model's stored form are the ones the model was built with -- every key, the ones whose value is None included"""
+    import io
+    import json
+    import contextlib
+    import logging
+    import warnings
+    import opendsm.eemeter as em
+    import bounded.C12_fits as F
+    warnings.filterwarnings("ignore")
+    logging.disable(logging.CRITICAL)
+    df = F.build({"name": "both", "base": 20, "heat_slope": 1.2, "cool_slope": 0.9, "heat_bp": 50, "cool_bp": 68, "n_days": 365, "seed": 3, "family": "daily"})
+    with contextlib.redirect_stdout(io.StringIO()):
+        data = em.DailyBaselineData(df, is_electricity_data=True)
+        if case["profile"] == "developer_none":
+            m = em.DailyModel(settings={"developer_mode": True, "silent_developer_mode": True, "alpha_final_type": None, "final_bounds_scalar": None})
+        else:
+            m = em.DailyModel(model=case["profile"])
+        m.fit(data, ignore_disqualification=True)
+    built = json.loads(json.dumps(m.settings.model_dump(), default=lambda o: getattr(o, "value", str(o))))
+    stored = json.loads(m.to_json())["settings"]
+    fb, fs = flatten(norm(built)), flatten(norm(stored))
+    missing = sorted(k for k in fb if k not in fs and k != "developer_mode")
+    changed = sorted(k for k in fb if k in fs and fs[k] != fb[k] and k != "developer_mode")
+    bad = []
+    if missing:
+        bad.append(f"options of the model's settings that are absent from the stored record: {missing[:5]}")
+    if changed:
+        bad.append(f"options stored with another value: {[(k, fb[k], fs[k]) for k in changed[:3]]}")
+    return {"ok": not bad, "problems": bad}
+
+
 def replay(case):
+    if case.get("kind") == "stored_settings":
+        return case_stored_settings(case)
+    if case.get("kind") == "num_std":
+        return case_num_std(case)
+    if case.get("kind") == "settings_object":
+        return case_settings_object(case)
     import pydantic
     if case.get("kind") == "nested_other_class":
         from opendsm.eemeter.models.daily.utilities import settings as S
@@ -386,6 +472,26 @@ def run(tier="quick", seed=0):
                                     import traceback
                                     r = {"ok": False, "problems": [f"harness exception {type(e).__name__}: {e}", traceback.format_exc()[-500:]]}
                                 b.case("C14.enum", case, r["ok"], nontrivial_key=json.dumps(case, sort_keys=True), detail=r["problems"])
+    # ---- cross-field validity at the nested level, on EVERY profile tree (a subclass must not lose a parent's check)
+    for prof in ("daily", "legacy", "billing"):
+        for v in BAD_NUM_STD:
+            for nested_as in ("dict", "object"):
+                case = {"kind": "num_std", "profile": prof, "value": v, "nested_as": nested_as}
+                r = replay(case)
+                b.case("C14.enum.invalid_rejected", case, r["ok"], nontrivial_key=("num_std", prof, str(v), nested_as), detail=r["problems"])
+    # ---- the model constructors: a ready-made settings object of ANOTHER profile class (or one altered behind the validators) must not get past the lock
+    for prof in ("current", "legacy", "developer_none"):
+        case = {"kind": "stored_settings", "profile": prof}
+        try:
+            r = replay(case)
+        except Exception as e:  # noqa
+            import traceback
+            r = {"ok": False, "problems": [f"harness exception {type(e).__name__}: {e}", traceback.format_exc()[-500:]]}
+        b.case("C14.enum.stored_settings", case, r["ok"], nontrivial_key=("stored_settings", prof), detail=r["problems"])
+    for label in SETTINGS_OBJECT_INPUTS:
+        case = {"kind": "settings_object", "input": label}
+        r = replay(case)
+        b.case("C14.enum.model_constructor", case, r["ok"], nontrivial_key=("settings_object", label), detail=r["problems"])
     return b.result()
 
 
